@@ -40,6 +40,7 @@ PROPS = {
     'C09': dict(streams=['robust', 'conv', 'write', 'dict']),
     'C10': dict(streams=['conv', 'wconv', 'note', 'scale']),
     'C11': dict(streams=['variants', 'lex']),
+    'C12': dict(streams=['repeat', 'chain', 'scale'], race=True),
     'C13': dict(streams=['scale', 'diatonic']),
     'C14': dict(streams=['chain']),
     'C15': dict(streams=['note', 'describe']),
@@ -338,6 +339,14 @@ def check_property(pid, tier, seed):
         if not ok:
             problems.append(dict(kind='regenerate', detail='extractor could not read the source: ' + msg.strip()[:500]))
         crd, harness = build_real(scratch)
+        os.environ.pop('CRD_RACE_BIN', None)
+        if cfg.get('race'):
+            race = os.path.join(scratch, 'crd-race')
+            p = run(['go', 'build', '-race', '-o', race, './cmd'], cwd=REPO, env=goenv())
+            if p.returncode == 0:
+                os.environ['CRD_RACE_BIN'] = race
+            else:
+                problems.append(dict(kind='race-build', detail=p.stderr.decode(errors='replace')[-500:]))
         targets = ['Crd.Props.' + pid, 'crd_driver']
         built, out = lake_build(targets)
         names = []
@@ -392,8 +401,9 @@ def check_property(pid, tier, seed):
                 known_lines.append("KNOWN-FINDING: property=%s %s" % (pid, f['what']))
         unknown = []
         for v in violations:
-            if any(props_extra.matches(f, v) for f in findings):
-                line = "KNOWN-FINDING: property=%s %s" % (pid, v.get('what', ''))
+            hit = [f for f in findings if props_extra.matches(f, v)]
+            if hit:
+                line = "KNOWN-FINDING: property=%s %s" % (pid, hit[0]['what'])
                 if line not in known_lines:
                     known_lines.append(line)
             else:
